@@ -103,6 +103,18 @@ def ensureListForNodes (x : Arg) (n : Nat) (dflt : Option Rat) : Option (List (O
   | .scalar v => some (List.replicate n (some v))
   | .list xs => if xs.length = n then some (xs.map some) else Option.none
 
+/-- `ensure_list_for_time_periods(x, num_periods)`: a list indexed 0..T whose element 0 is ignored. A singleton (`None`
+included) is repeated T times behind a 0; a list of length T+1 is returned as it is; a list of length T is shifted
+right behind a 0 (a NEW list: the argument is a value here, so it cannot change); any other length is a `ValueError`. -/
+def ensureListForTimePeriods (x : Arg) (T : Nat) : Option (List (Option Rat)) :=
+  match x with
+  | .none => some (some 0 :: List.replicate T Option.none)
+  | .scalar v => some (some 0 :: List.replicate T (some v))
+  | .list xs =>
+    if xs.length = T + 1 then some (xs.map some)
+    else if xs.length = T then some (some 0 :: xs.map some)
+    else Option.none
+
 /-- `ensure_dict_for_nodes(x, node_indices, default)` for non-dict `x`. -/
 def ensureDictForNodes (x : Arg) (idx : List Int) (dflt : Option Rat) : Option (List (Int × Option Rat)) :=
   match x with
